@@ -20,27 +20,27 @@ var rtIntrinsics map[string]intrinsic
 
 func init() {
 	rtIntrinsics = map[string]intrinsic{
-		"rtParam":     rtParam,
-		"rtByte":      rtByte,
-		"rtBytes":     rtBytes,
-		"rtInt":       rtInt,
-		"rtBool":      rtBool,
-		"rtChoose":    rtChoose,
-		"rtAssume":    rtAssume,
-		"rtAssert":    rtAssert,
-		"rtReach":     rtReach,
-		"rtTag":       rtTag,
-		"rtObserve":   rtObserve,
+		"rtParam":      rtParam,
+		"rtByte":       rtByte,
+		"rtBytes":      rtBytes,
+		"rtInt":        rtInt,
+		"rtBool":       rtBool,
+		"rtChoose":     rtChoose,
+		"rtAssume":     rtAssume,
+		"rtAssert":     rtAssert,
+		"rtReach":      rtReach,
+		"rtTag":        rtTag,
+		"rtObserve":    rtObserve,
 		"rtObserveInt": rtObserve,
-		"rtIn":        rtIn,
-		"rtOr":        rtOr,
-		"rtAnd":       rtAnd,
-		"rtNot":       rtNot,
-		"rtEpoch":     rtEpoch,
-		"rtSnapshot":  rtSnapshot,
-		"rtUnchanged": rtUnchanged,
-		"rtCut":       rtCut,
-		"rtNative":    func(in *Interp, fn *ssa.Function, args []value) value { return false },
+		"rtIn":         rtIn,
+		"rtOr":         rtOr,
+		"rtAnd":        rtAnd,
+		"rtNot":        rtNot,
+		"rtEpoch":      rtEpoch,
+		"rtSnapshot":   rtSnapshot,
+		"rtUnchanged":  rtUnchanged,
+		"rtCut":        rtCut,
+		"rtNative":     func(in *Interp, fn *ssa.Function, args []value) value { return false },
 	}
 }
 
@@ -178,7 +178,9 @@ func rtAssert(in *Interp, fn *ssa.Function, args []value) value {
 				in.ex.noteInconclusive("assert " + id)
 			}
 		}
-		in.assume(c)
+		if in.ex.assumeOnly == nil || in.ex.assumeOnly[id] {
+			in.assume(c)
+		}
 	}
 	return nil
 }
